@@ -321,6 +321,32 @@ def _root_local(b, op):
     return l
 
 
+def _reset_before_run(prog, b, l, run_call, loop):
+    """A call f(&mut ctx, ..) in the same loop iteration that dominates the run and whose body unconditionally empties the
+    sample store (SampleCollection::clear on self.samples), the per-input counts and resets did_run."""
+    for c in b.live_calls():
+        if not c.args or _root_local(b, c.args[0]) != l or c.bb == run_call.bb:
+            continue
+        if not b.dominates(c.bb, run_call.bb):
+            continue
+        il = b.innermost_loop(c.bb)
+        if (il["header"] if il else None) != (loop["header"] if loop else None):
+            continue
+        fb = prog.bodies.get((b.crate, c.callee, -1))
+        if fb is None:
+            continue
+        rets = fb.returns
+        def uncond(bb):
+            return all(fb.dominates(bb, r) for r in rets)
+        clears = [x for x in fb.live_calls() if x.callee.endswith("SampleCollection::clear") and uncond(x.bb)
+                  and {z.label() for z in fb.prov.op_src(x.args[0]) if z.kind == "param"} == {"param:self.samples"}]
+        counts = [x for x in fb.live_calls() if x.callee.endswith("clear_input_counts") and uncond(x.bb)]
+        didrun = [(bi, s) for bi, si, s in fb.stmts() if s["k"] == "assign" and place_fields(s["p"]) == ("did_run",) and const_int(s["rv"].get("o", {"k": ""})) == 0 and uncond(bi)]
+        if clears and counts and didrun:
+            return True
+    return False
+
+
 def r03_6(ctx, S, prog, crate):
     """Every run whose statistics are reported starts from an empty sample store: the BenchContext handed to the Bencher
     is built by the one constructor in the same loop iteration (or straight-line code) as the run and the compute_stats
@@ -351,6 +377,11 @@ def r03_6(ctx, S, prog, crate):
         heads = [x["header"] if x else None for x in li]
         same = heads[0] == heads[1] == heads[2]
         order = b.dominates(n.bb, bn[0].bb) and b.dominates(bn[0].bb, c.bb)
+        if not (same and order) and b.dominates(n.bb, bn[0].bb) and heads[1] == heads[2]:
+            # accepted idiom: one context reused, but emptied by a reset call in the same iteration before the run
+            if _reset_before_run(prog, b, l, bn[0], li[1]):
+                same = order = True
+                ctx.note("R03.6: context reused across runs and emptied by a reset call before each run (accepted idiom)")
         ctx.check(same and order, "R03.6", key + ["fresh-per-run"],
                   "BenchContext::new (loop %s), the run (loop %s) and compute_stats (loop %s) are not in the same iteration: samples of an earlier run "
                   "would be reported again" % tuple(heads), n.line(), detail={"loops": heads})
